@@ -20,10 +20,12 @@
   * `func_index_space_*`: index < #imports designates the import, otherwise definition
     index − #imports.
 
-  Named partial where: memory/global effects of callees are outside the model (callees are pure
-  functions of their arguments here; memory/globals are covered behaviourally by the e2e tie);
-  call_indirect on an uninitialised / out-of-bounds / wrongly typed slot is outside the property's
-  quantifier and not modelled.
+  Callees read and write the instance's globals and memory: every function (imported host functions
+  included) maps arguments and the state `GS` to a result and a new `GS`, and the theorem says the
+  emitted C leaves the SAME globals and memory as the specification.
+  Named partial where: call_indirect on an uninitialised / out-of-bounds / wrongly typed slot is
+  outside the property's quantifier and not modelled; bulk memory and atomic instructions inside a
+  callee make its run `stuck` (see Props/C03).
 -/
 import W2c2Verif.Lemmas.SimModule
 import W2c2Verif.Lemmas.Elem
@@ -32,18 +34,18 @@ import W2c2Verif.Props.C03
 namespace W2c2Verif.Props.C04
 open W2c2Verif Model Gen Spec Sim
 
-theorem module_sim_partial (m : MModule) (ns0 : NumSem) (hns : NumOK ns0) (cfs : List Model.CFunc)
-    (hc : m.compileFuncs m.funcs = .ok cfs) (hh : HostOK m) (depth fn : Nat) (args : List Val) :
-    (∀ r, (m.run ns0 cfs depth).1 fn args = .val r → (m.run ns0 cfs depth).2 fn args = .val r) ∧
-    (∀ t, (m.run ns0 cfs depth).1 fn args = .trap t → (m.run ns0 cfs depth).2 fn args = .trap t) :=
-  module_sim m ns0 hns cfs hc hh depth fn args
+theorem module_sim_partial (m : MModule) (ns0 : NumSem) (hns : NumOK ns0) (hmo : MemOK ns0) (cfs : List Model.CFunc)
+    (hc : m.compileFuncs m.funcs = .ok cfs) (hh : HostOK m) (depth fn : Nat) (args : List Val) (g : GS) (hg : GTyped m.ctx g) :
+    (∀ r, (m.run ns0 cfs depth).1 fn args g = .val r → (m.run ns0 cfs depth).2 fn args g = .val r) ∧
+    (∀ t, (m.run ns0 cfs depth).1 fn args g = .trap t → (m.run ns0 cfs depth).2 fn args g = .trap t) :=
+  module_sim m ns0 hns hmo cfs hc hh depth fn args g hg
 
 /-- the callee environment handed to every function body satisfies the hypotheses of the body-level
     simulation (arity from the module's types, typed results, emitted C refines specification) -/
-theorem callee_env_ok (m : MModule) (ns0 : NumSem) (hns : NumOK ns0) (cfs : List Model.CFunc)
+theorem callee_env_ok (m : MModule) (ns0 : NumSem) (hns : NumOK ns0) (hmo : MemOK ns0) (cfs : List Model.CFunc)
     (hc : m.compileFuncs m.funcs = .ok cfs) (hh : HostOK m) (depth : Nat) (lt : List VT) :
     CallOK (m.env ns0 (m.run ns0 cfs depth).1 (m.run ns0 cfs depth).2) { m.ctx with localTypes := lt } :=
-  module_callOK m ns0 hns cfs hc hh depth lt
+  module_callOK m ns0 hns hmo cfs hc hh depth lt
 
 theorem elem_init_correct (size : Nat) (segs : List ElemSeg) (k : Nat) (hk : k < size) :
     (initTable size segs)[k]? = some (slotSpec segs k) := initTable_spec size segs k hk
@@ -63,17 +65,20 @@ theorem func_index_space_defined (m : MModule) (fn : Nat) (h : m.imports.length 
 
 /-! ### non-vacuity: a module with an import, mutual recursion and an indirect call -/
 
-/-- types: 0 = (i32)→i32.  func 0 = import; func 1 = `local.get 0; call 0`;
-    func 2 = `local.get 0; i32.const 0; call_indirect (type 0)` with table[0] = 1 -/
+/-- types: 0 = (i32)→i32; one mutable i32 global.  func 0 = import (returns its argument, bumps global 0);
+    func 1 = `local.get 0; call 0`; func 2 = `local.get 0; i32.const 0; call_indirect (type 0); global.get 0; drop`
+    with table[0] = 1 -/
 def demo : MModule where
   types := [⟨[.i32], [.i32]⟩]
   imports := [0]
-  funcs := [⟨0, [], [.localGet 0, .call 0]⟩, ⟨0, [], [.localGet 0, .const .i32 0, .callIndirect 0 0]⟩]
+  funcs := [⟨0, [], [.localGet 0, .call 0]⟩, ⟨0, [], [.localGet 0, .const .i32 0, .callIndirect 0 0, .globalGet 0, .drop]⟩]
   table := initTable 1 [⟨0, [1]⟩]
-  host := fun _ args => .val args.head?
+  globalTypes := [.i32]
+  host := fun _ args g => .val (args.head?, { g with globals := [.i32 99] })
 
 example : (demo.compileFuncs demo.funcs).toOption.isSome = true := by decide
-example : ((demo.run W2c2Verif.Props.C03.trapNS ((demo.compileFuncs demo.funcs).toOption.getD []) 8).1 2 [.i32 41]) = .val (some (.i32 41)) := by rfl
+example : (((demo.run W2c2Verif.Props.C03.trapNS ((demo.compileFuncs demo.funcs).toOption.getD []) 8).1 2 [.i32 41] { globals := [.i32 0] }).map'
+    fun r => (r.1, r.2.globals)) = .val (some (.i32 41), [.i32 99]) := by rfl
 example : initTable 4 [⟨0, [7, 8]⟩, ⟨1, [9]⟩] = [some 7, some 9, none, none] := by decide
 
 end W2c2Verif.Props.C04
